@@ -308,8 +308,13 @@ pub fn run(r: &Report) {
     {
         let sub = "deep-nesting";
         let depth = 10_000;
-        r.space(sub, true, &format!("all 155 nesting patterns of period <= 3 over {{[, [_, {{, {{_, tag}} repeated to depth {}, closed correctly, x 3 suffixes, plus truncations near the end", depth), 1);
-        let pats = deep_patterns(depth);
+        r.space(sub, true, &format!("all 155 nesting patterns of period <= 3 over {{[, [_, {{, {{_, tag}} repeated to depth 256, {} and 65537, and the 30 patterns of period <= 2 at depths 255, 257, 65535 and 65536 (both sides of what an 8- or 16-bit depth counter holds), closed correctly, x 3 suffixes, plus truncations near the end", depth), 1);
+        let mut pats = deep_patterns(depth);
+        pats.extend(deep_patterns(256));
+        pats.extend(deep_patterns(65537));
+        for d in [255usize, 257, 65535, 65536] {
+            pats.extend(deep_patterns(d).into_iter().filter(|(_, desc)| desc.matches('"').count() <= 4));
+        }
         mcx::par::run_shards(
             pats.len(),
             |i| {
@@ -326,7 +331,7 @@ pub fn run(r: &Report) {
                         r.fail(sub, None, json!({"pattern": desc, "suffix_hex": hex(suf)}), format!("skip() returned {:?} with position {}, the item has {} bytes", res, d.position(), bytes.len()));
                     }
                 }
-                for cut in [1usize, 2, 3, depth / 2] {
+                for cut in [1usize, 2, 3, bytes.len() / 3] {
                     if cut < bytes.len() {
                         let b = &bytes[..bytes.len() - cut];
                         let mut d = Decoder::new(b);
